@@ -306,20 +306,20 @@ pub fn configs(tier: crate::registry::Tier, _seed: u64) -> Vec<crate::registry::
     use crate::registry::{entry, Tier};
     let mut v = Vec::new();
     for dims in [vec![1, 1], vec![2, 2], vec![1, 2, 1], vec![2, 2, 1], vec![1, 2, 2], vec![2, 1, 2], vec![0, 2, 1], vec![2, 0, 1], vec![1, 1, 1, 1]] {
-        v.push(entry(Reduce { ring: RingSel::Z, dims: dims.clone(), b: 2, mode: 0, track: false }, 1500, 120.0));
+        v.push(entry(Reduce { ring: RingSel::Z, dims: dims.clone(), b: 2, mode: 0, track: false }, 5000, 120.0));
     }
     v.push(entry(Reduce { ring: RingSel::Z, dims: vec![1, 2, 1], b: 2, mode: 0, track: true }, 1500, 120.0));
     v.push(entry(Reduce { ring: RingSel::Z, dims: vec![2, 2], b: 2, mode: 0, track: true }, 1500, 120.0));
     for mode in 1..=8u8 {
-        v.push(entry(Reduce { ring: RingSel::Z, dims: vec![1, 2, 2], b: 2, mode, track: mode % 3 == 0 }, 1500, 120.0));
+        v.push(entry(Reduce { ring: RingSel::Z, dims: vec![1, 2, 2], b: 2, mode, track: mode % 3 == 0 }, 4000, 120.0));
         v.push(entry(Reduce { ring: RingSel::Z, dims: vec![2, 2, 1], b: 2, mode, track: false }, 1500, 120.0));
     }
     // Q: units other than +-1 (AnyUnit pivots with u^2 != 1); Z[H]: non-PID, units +-1, default c_weight
     for ring in [RingSel::Q, RingSel::ZH] {
         let b = if ring == RingSel::ZH { 1 } else { 2 };
         v.push(entry(Reduce { ring, dims: vec![1, 2, 1], b, mode: 0, track: true }, 1500, 120.0));
-        v.push(entry(Reduce { ring, dims: vec![2, 2], b, mode: 0, track: false }, 1500, 120.0));
-        v.push(entry(Reduce { ring, dims: vec![1, 3, 1], b: 2, mode: 0, track: false }, 1500, 120.0));
+        v.push(entry(Reduce { ring, dims: vec![2, 2], b, mode: 0, track: false }, 5000, 120.0));
+        v.push(entry(Reduce { ring, dims: vec![1, 3, 1], b: 2, mode: 0, track: false }, 5000, 120.0));
         for mode in [2u8, 3, 4, 6, 7, 8] {
             v.push(entry(Reduce { ring, dims: vec![1, 2, 2], b, mode, track: false }, 800, 90.0));
         }
